@@ -21,7 +21,14 @@ base = tempfile.mkdtemp(prefix='refall')
 def one(j):
     p, pid = j
     wt = '%s/%s-%s-%s' % (base, os.path.basename(os.path.dirname(p)), os.path.basename(p), pid)
-    subprocess.run(['git', '-C', '/repo', 'worktree', 'add', '-q', '--detach', wt, 'HEAD'], check=True)
+    for _try in range(6):
+        # concurrent `git worktree add` calls on one repository can collide on its administrative files: retry
+        if subprocess.run(['git', '-C', '/repo', 'worktree', 'add', '-q', '--detach', wt, 'HEAD']).returncode == 0:
+            break
+        import time, random
+        time.sleep(0.5 + random.random())
+    else:
+        raise RuntimeError('git worktree add failed for %s' % wt)
     try:
         r = subprocess.run(['git', '-C', wt, 'apply', p], capture_output=True, text=True)
         if r.returncode != 0:
